@@ -80,3 +80,34 @@ Example C08_hasattr_example :
   let e := ECall BHasattr [EName 4; call_lit] in
   hasattr_guard ex_env e = true /\ rw_hasattr e <> e /\ meaning ex_env e = Val (VBool true).
 Proof. vm_compute. repeat split; try reflexivity. discriminate. Qed.
+
+(** fix-empty-sequence-comparison (`x == []` -> `not x`, `x != []` -> `bool(x)` / bare `x` as the test of an `if`):
+    law when every rewritten comparison compares a value of the display's own type (list with [], tuple with ()) or a
+    value whose evaluation raises; the observation of an `if` test is its truth value.  Refuted for a tuple / an int
+    compared with [] (the codemod cannot know the type: by design, class kf_empty_seq_other_type) and, pinned form, for
+    the parentheses of the replaced comparison. *)
+Theorem C08_empty_seq_partial : C08_empty_seq_statement empty_seq_cfg_v.
+Proof. exact (C08_empty_seq_all empty_seq_cfg_v). Qed.
+Print Assumptions C08_empty_seq_partial.
+Example C08_empty_seq_example :
+  let rho := [(1%N, VList [VInt 1]); (2%N, VTuple [])] in
+  let e := EBool true BAnd (ECmp true (EName 1) [(NotEq, EList [])]) (ECmp true (ETuple []) [(Eq, EName 2)]) in
+  empty_seq_guard empty_seq_cfg_v false rho e = true /\ empty_seq_file empty_seq_cfg_v false e <> e /\
+  meaning rho e = Val (VBool true) /\ paren_safe (empty_seq_file empty_seq_cfg_v false e) = true.
+Proof. vm_compute. repeat split; try reflexivity. discriminate. Qed.
+
+(** literal-or-new-object-identity (`x is <literal>` -> `x == <literal>`): law when `is` and `==` agree on the operands of
+    every rewritten comparison (e.g. None / an object / a type against a display); refuted for `True is 1`
+    (the codemod changes the meaning on purpose: class kf_identity_differs). *)
+Theorem C08_identity_partial :
+  forall rho e, paren_safe e = true -> paren_safe (rw_identity e) = true -> identity_guard rho e = true -> preserves rw_identity rho e.
+Proof. exact C08_identity_all. Qed.
+Print Assumptions C08_identity_partial.
+Theorem C08_identity_refuted : changes rw_identity [] w_id_bool.
+Proof. exact C08_identity_refuted_w. Qed.
+Print Assumptions C08_identity_refuted.
+Example C08_identity_example :
+  let rho := [(1%N, VNone)] in
+  let e := ENot true (ECmp true (EName 1) [(Is, EList [ci 1])]) in
+  identity_guard rho e = true /\ rw_identity e <> e /\ meaning rho e = Val (VBool true).
+Proof. vm_compute. repeat split; try reflexivity. discriminate. Qed.
